@@ -356,6 +356,13 @@ func init() {
 	conc("strings.Join", func(a []interface{}) []interface{} {
 		return []interface{}{strings.Join(a[0].([]string), a[1].(string))}
 	})
+	conc("strings.ReplaceAll", func(a []interface{}) []interface{} {
+		return []interface{}{strings.ReplaceAll(a[0].(string), a[1].(string), a[2].(string))}
+	})
+	conc("path.Split", func(a []interface{}) []interface{} {
+		d, f := path.Split(a[0].(string))
+		return []interface{}{d, f}
+	})
 	conc("path.Join", func(a []interface{}) []interface{} { return []interface{}{path.Join(a[0].([]string)...)} })
 	conc("net.JoinHostPort", func(a []interface{}) []interface{} {
 		return []interface{}{net.JoinHostPort(a[0].(string), a[1].(string))}
